@@ -975,7 +975,7 @@ func c20Enum(thorough bool, yield func(c20Case)) {
 	seed := kit.Seed()
 	nscen := 7
 	if thorough {
-		nscen = 60
+		nscen = 40
 	}
 	id := uint64(0)
 	emit := func(c c20Case) {
@@ -1104,6 +1104,6 @@ func TestVerifC20Faults(t *testing.T) {
 			v, ok := c20Outcomes.Load(c.ID)
 			return ok && v.(bool) && (c.Kind != "none" || c.Invalid >= 0)
 		},
-		Rule: "7 (thorough 60) seeded scenarios: 0-2 earlier good uploads, an attempt of 1-3 files (one scenario large enough to make the server flush rows before the end), one more good upload; for each scenario EVERY position of one fault: each store operation (NewWriter/Write/Close/CloseWithError in call order, k = 1..n+1) on fs.MemFS and fs/local, also on top of a file without benchmark lines; body cut at every 5th byte offset plus +-3 around every part boundary (thorough: every offset) over raw TCP with the full Content-Length; unexpected fields abort/foo/File before, between, after the files; storage.Client Abort() before any file and after 0 / half / all bytes of each file; a file without benchmark lines or with a colliding label at each position. Non-trivial: the fault took effect (a store operation was hit, the body was really shortened, ...).",
+		Rule: "7 (thorough 40) seeded scenarios: 0-2 earlier good uploads, an attempt of 1-3 files (one scenario large enough to make the server flush rows before the end), one more good upload; for each scenario EVERY position of one fault: each store operation (NewWriter/Write/Close/CloseWithError in call order, k = 1..n+1) on fs.MemFS and fs/local, also on top of a file without benchmark lines; body cut at every 5th byte offset plus +-3 around every part boundary (thorough: every offset) over raw TCP with the full Content-Length; unexpected fields abort/foo/File before, between, after the files; storage.Client Abort() before any file and after 0 / half / all bytes of each file; a file without benchmark lines or with a colliding label at each position. Non-trivial: the fault took effect (a store operation was hit, the body was really shortened, ...).",
 	})
 }
